@@ -33,7 +33,7 @@ theorem PresR.and {α} {A B : State → Prop} {Q : α → Prop} {m : M α} (h1 :
     | ok a c' => rw [hm] at r1 r2; exact ⟨⟨r1.1, r2⟩, r1.2⟩⟩
 
 section
-variable (E : Env)
+variable (E : Env) (τ : Id → Nat)
 
 theorem CustomNE.ignoresMembership : IgnoresMembership CustomNE := by
   intro s s' h hs; unfold CustomNE at *; rw [h]; exact hs
@@ -70,59 +70,77 @@ theorem CustomNE.leaves : Leaves E CustomNE where
     · rw [he]; exact hd)
 
 /-- the state part: wire range and non-empty items -/
-def Ready (s : State) : Prop := WireInv E s ∧ CustomNE s
+def Ready (s : State) : Prop := WireInv E τ s ∧ CustomNE s
 
-theorem Ready.sendReady {s : State} (h : Ready E s) : SendReady E s :=
+theorem Ready.sendReady {s : State} (h : Ready E τ s) : SendReady E (MW τ) s :=
   ⟨h.1.2.2.1, h.1.2.2.2.2, h.2⟩
 
-theorem Ready.base : Base E (Ready E) MWire where
-  ownDown := fun s hs => (WireInv.base E).ownDown s hs.1
-  membersApply := fun u hu => Pres.and ((WireInv.base E).membersApply u hu) ((CustomNE.leaves E).membersApply u)
+theorem Ready.base : Base E (Ready E τ) (MW τ) where
+  ownDown := fun s hs => (WireInv.base E τ).ownDown s hs.1
+  membersApply := fun u hu => Pres.and ((WireInv.base E τ).membersApply u hu) ((CustomNE.leaves E).membersApply u)
   membersApplyExistingIf := fun u cond hu =>
-    Pres.and ((WireInv.base E).membersApplyExistingIf u cond hu) ((CustomNE.leaves E).membersApplyExistingIf u cond)
-  membersNext := PresR.and (WireInv.base E).membersNext (CustomNE.leaves E).membersNext
-  startProbe := fun m hm => Pres.and ((WireInv.base E).startProbe m hm) (Pres.modS_of (fun s hs => hs))
-  sendMessage := fun d m => Pres.and ((WireInv.base E).sendMessage d m) ((CustomNE.leaves E).sendMessage d m)
-  addUpdate := fun m hm => Pres.and ((WireInv.base E).addUpdate m hm) ((CustomNE.leaves E).addUpdate m)
-  modCtl := fun f h => Pres.and ((WireInv.base E).modCtl f h)
+    Pres.and ((WireInv.base E τ).membersApplyExistingIf u cond hu) ((CustomNE.leaves E).membersApplyExistingIf u cond)
+  membersNext := PresR.and (WireInv.base E τ).membersNext (CustomNE.leaves E).membersNext
+  startProbe := fun m hm => Pres.and ((WireInv.base E τ).startProbe m hm) (Pres.modS_of (fun s hs => hs))
+  sendMessage := fun d m => Pres.and ((WireInv.base E τ).sendMessage d m) ((CustomNE.leaves E).sendMessage d m)
+  addUpdate := fun m hm => Pres.and ((WireInv.base E τ).addUpdate m hm) ((CustomNE.leaves E).addUpdate m)
+  modCtl := fun f h => Pres.and ((WireInv.base E τ).modCtl f h)
     (Pres.modS_of (fun s hs => by unfold CustomNE at *; rw [(h s).2.2.2.1]; exact hs))
-  setHst := fun h' => Pres.and ((WireInv.base E).setHst h') ((CustomNE.leaves E).setHst h')
+  setHst := fun h' => Pres.and ((WireInv.base E τ).setHst h') ((CustomNE.leaves E).setHst h')
   addCustom := fun h' key data hd =>
-    Pres.and ((WireInv.base E).addCustom h' key data hd) ((CustomNE.leaves E).addCustom h' key data hd)
+    Pres.and ((WireInv.base E τ).addCustom h' key data hd) ((CustomNE.leaves E).addCustom h' key data hd)
 
 /-! ### with the effects -/
 
 /-- what is required of an emitted effect: a datagram has the documented shape, for a header addressed to the
-    identity it is handed over for -/
+    identity it is handed over for and with every field within the wire range; a suspicion timer names a member
+    the instance holds (within the range, at an incarnation it was told); an indirect-probe timer names an identity
+    within the range -/
 def EffShape (e : Effect) : Prop :=
   match e with
-  | .send d b => ∃ h : Header, h.dst = d ∧ DatagramShape E h b
+  | .send d b => ∃ h : Header, h.dst = d ∧ HWire h ∧ DatagramShape E (MW τ) h b
+  | .timer _ (.s2d m inc _) => MW τ ⟨m, inc, .down⟩
+  | .timer _ (.indirect p _) => IdWire p
   | _ => True
 
-def Sent (s : State) (eff : List Effect) : Prop := Ready E s ∧ ∀ e ∈ eff, EffShape E e
+def Sent (s : State) (eff : List Effect) : Prop := Ready E τ s ∧ ∀ e ∈ eff, EffShape E τ e
 
-theorem Sent.silent {α} {m : M α} (h : Pres (Ready E) m) (hs : Silent m) : PresE (Sent E) m :=
+theorem Sent.silent {α} {m : M α} (h : Pres (Ready E τ) m) (hs : Silent m) : PresE (Sent E τ) m :=
   PresE.of_pres_silent h hs
 
-theorem Sent.modS {f : State → State} (h : Pres (Ready E) (Foca.modS f)) : PresE (Sent E) (Foca.modS f) :=
-  Sent.silent E h (Silent.modS f)
+theorem Sent.modS {f : State → State} (h : Pres (Ready E τ) (Foca.modS f)) : PresE (Sent E τ) (Foca.modS f) :=
+  Sent.silent E τ h (Silent.modS f)
 
-theorem Sent.baseE : BaseE E (Sent E) MWire where
-  ownDown := fun s _ hs => (Ready.base E).ownDown s hs.1
-  emitNS := fun e he => PresE.emit_of (fun s eff h => ⟨h.1, fun x hx => by
+theorem Sent.baseE : BaseE E (Sent E τ) (MW τ) IdWire MsgWire where
+  ownDown := fun s _ hs => (Ready.base E τ).ownDown s hs.1
+  emitNS := fun e he hs2 hi => PresE.emit_of (fun s eff h => ⟨h.1, fun x hx => by
     rcases List.mem_append.1 hx with hx | hx
     · exact h.2 x hx
     · simp only [List.mem_singleton] at hx
       subst hx
-      cases x <;> simp [isSend] at he <;> trivial⟩)
-  membersApply := fun u hu => Sent.silent E ((Ready.base E).membersApply u hu) (Silent.membersApply u)
+      cases x with
+      | send d b => simp [isSend] at he
+      | notify n => trivial
+      | timer a t => cases t <;> first | trivial | simp [isS2d] at hs2 | simp [isIndirectT] at hi⟩)
+  emitIndirect := fun p after tok hp => PresE.emit_of (fun s eff h => ⟨h.1, fun x hx => by
+    rcases List.mem_append.1 hx with hx | hx
+    · exact h.2 x hx
+    · simp only [List.mem_singleton] at hx
+      subst hx
+      exact hp⟩)
+  memberDst := fun s eff m h hm => (h.1.1.2.2.1 m hm).1.1
+  updDst := fun u hu => hu.1.1
+  plainMsg := ⟨trivial, trivial, trivial, trivial, trivial⟩
+  pingMsg := fun s eff h => h.1.1.2.1.2
+  pingReqMsg := fun s eff p h hp => ⟨hp, h.1.1.2.1.2⟩
+  membersApply := fun u hu => Sent.silent E τ ((Ready.base E τ).membersApply u hu) (Silent.membersApply u)
   membersApplyExistingIf := fun u cond hu =>
-    Sent.silent E ((Ready.base E).membersApplyExistingIf u cond hu) (Silent.membersApplyExistingIf u cond)
-  membersNext := PresER.of_presR_silent (Ready.base E).membersNext Silent.membersNext
-  startProbe := fun m hm => Sent.modS E ((Ready.base E).startProbe m hm)
-  sendMessage := fun d m => ⟨fun c hc => by
-    have h1 := ((Ready.base E).sendMessage d m).run c hc.1
-    have h2 := sendMessage_shape E d m c (Ready.sendReady E hc.1)
+    Sent.silent E τ ((Ready.base E τ).membersApplyExistingIf u cond hu) (Silent.membersApplyExistingIf u cond)
+  membersNext := PresER.of_presR_silent (Ready.base E τ).membersNext Silent.membersNext
+  startProbe := fun m hm => Sent.modS E τ ((Ready.base E τ).startProbe m hm)
+  sendMessage := fun d m hd hm => ⟨fun c hc => by
+    have h1 := ((Ready.base E τ).sendMessage d m).run c hc.1
+    have h2 := sendMessage_shape E (MW τ) d m c (Ready.sendReady E τ hc.1)
     have h3 := sendMessage_spec E d m c
     cases h : Foca.sendMessage E d m c with
     | stuck x => trivial
@@ -142,44 +160,44 @@ theorem Sent.baseE : BaseE E (Sent E) MWire where
       · exact hc.2 x hx
       · simp only [List.mem_singleton] at hx
         subst hx
-        exact ⟨_, rfl, hshape⟩⟩
+        exact ⟨_, rfl, ⟨hc.1.1.1, hc.1.1.2.1.1, hd, hm⟩, hshape⟩⟩
   addUpdate := fun m hm => by
     unfold Foca.addUpdate
-    have := (Ready.base E).addUpdate m hm
+    have := (Ready.base E τ).addUpdate m hm
     unfold Foca.addUpdate at this
-    exact Sent.modS E this
-  modCtl := fun f h => Sent.modS E ((Ready.base E).modCtl f h)
-  setHst := fun h' => Sent.modS E ((Ready.base E).setHst h')
-  addCustom := fun h' key data hd => Sent.modS E ((Ready.base E).addCustom h' key data hd)
+    exact Sent.modS E τ this
+  modCtl := fun f h => Sent.modS E τ ((Ready.base E τ).modCtl f h)
+  setHst := fun h' => Sent.modS E τ ((Ready.base E τ).setHst h')
+  addCustom := fun h' key data hd => Sent.modS E τ ((Ready.base E τ).addCustom h' key data hd)
 
-theorem Ready.of_wire {s s' : State} (h1 : s'.custom = s.custom) (hw : WireInv E s → WireInv E s') (h : Ready E s) : Ready E s' :=
+theorem Ready.of_wire {s s' : State} (h1 : s'.custom = s.custom) (hw : WireInv E τ s → WireInv E τ s') (h : Ready E τ s) : Ready E τ s' :=
   ⟨hw h.1, by unfold CustomNE; rw [h1]; exact h.2⟩
 
-theorem Sent.reset : PresE (Sent E) Foca.reset := by
+theorem Sent.reset : PresE (Sent E τ) Foca.reset := by
   unfold Foca.reset
-  refine Sent.modS E (Pres.modS_of (fun s hs => Ready.of_wire E (s := s) rfl (fun hw => ?_) hs))
-  have := (WireInv.reset E).run ⟨s, [], default⟩ hw
+  refine Sent.modS E τ (Pres.modS_of (fun s hs => Ready.of_wire E τ (s := s) rfl (fun hw => ?_) hs))
+  have := (WireInv.reset E τ).run ⟨s, [], default⟩ hw
   unfold Foca.reset at this
   exact this
 
 theorem Sent.changeIdentity (newId : Id) (pol : Policy) (hw : IdWire newId) :
-    PresE (Sent E) (Foca.changeIdentity E newId pol) := by
-  have B := Sent.baseE E
+    PresE (Sent E τ) (Foca.changeIdentity E newId pol) := by
+  have B := Sent.baseE E τ
   unfold Foca.changeIdentity
   refine PresE.getS_with (fun s eff hs => ?_)
   split
   · exact PresE.throwE _
   · dsimp only
-    refine PresE.bind (Sent.modS E (Pres.modS_of (fun s' hs' => Ready.of_wire E (s := s') rfl (fun h => ?_) hs')))
-      (fun _ => PresE.bind (Sent.reset E) (fun _ => ?_))
+    refine PresE.bind (Sent.modS E τ (Pres.modS_of (fun s' hs' => Ready.of_wire E τ (s := s') rfl (fun h => ?_) hs')))
+      (fun _ => PresE.bind (Sent.reset E τ) (fun _ => ?_))
     · obtain ⟨_, hinc, ha, hb, hcc⟩ := h
       exact ⟨hw, hinc, ha, hb, hcc⟩
     · split
-      · exact PresE.bind (B.addUpdate _ ⟨hs.1.1.1, by simp⟩) (fun _ => B.gossip)
+      · exact PresE.bind (B.addUpdate _ (MW.down0 τ hs.1.1.1)) (fun _ => B.gossip)
       · exact B.gossip
 
-theorem Sent.attemptRejoin : PresE (Sent E) (Foca.attemptRejoin E) := by
-  have B := Sent.baseE E
+theorem Sent.attemptRejoin : PresE (Sent E τ) (Foca.attemptRejoin E) := by
+  have B := Sent.baseE E τ
   unfold Foca.attemptRejoin
   refine PresE.getS_with (fun s eff hs => ?_)
   split
@@ -189,26 +207,40 @@ theorem Sent.attemptRejoin : PresE (Sent E) (Foca.attemptRejoin E) := by
     · exact PresE.pure _
     · split
       · exact PresE.pure _
-      · exact PresE.bind (Sent.changeIdentity E newId s.policy (renew_wire hs.1.1.1 hren))
-          (fun _ => PresE.bind (B.emitNS _ rfl) (fun _ => PresE.pure _))
+      · exact PresE.bind (Sent.changeIdentity E τ newId s.policy (renew_wire hs.1.1.1 hren))
+          (fun _ => PresE.bind (B.emitNS _ rfl rfl rfl) (fun _ => PresE.pure _))
 
-theorem Sent.handleSelfUpdate (inc : Nat) (st : St) : PresE (Sent E) (Foca.handleSelfUpdate E inc st) := by
-  have B := Sent.baseE E
+theorem Sent.handleSelfUpdate (inc : Nat) (st : St) : PresE (Sent E τ) (Foca.handleSelfUpdate E inc st) := by
+  have B := Sent.baseE E τ
   unfold Foca.handleSelfUpdate
   prese
   all_goals first
-    | exact Sent.attemptRejoin E
+    | exact Sent.attemptRejoin E τ
     | exact B.becomeUndead
     | exact B.gossip
-    | exact Sent.modS E (Pres.modS_of (fun s hs => Ready.of_wire E (s := s) rfl
-        (fun h => ⟨h.1, satAdd16_wire _, h.2.2.1, h.2.2.2.1, h.2.2.2.2⟩) hs))
+    | exact Sent.modS E τ (Pres.modS_of (fun s hs => Ready.of_wire E τ (s := s) rfl
+        (fun h => ⟨h.1, ⟨satAdd16_wire _, h.2.1.2⟩, h.2.2.1, h.2.2.2.1, h.2.2.2.2⟩) hs))
 
-theorem Sent.fullE : FullE E (Sent E) MWire MWire (fun h => IdWire h.src ∧ h.srcInc < 65536) where
-  toBaseE := Sent.baseE E
-  handleSelfUpdate := Sent.handleSelfUpdate E
-  inputDown := fun u hu => ⟨hu.1, by simp⟩
-  senderOk := fun _ _ _ hh _ _ => hh
+theorem Sent.fullE : FullE E (Sent E τ) (MW τ) (MW τ) (fun h => MW τ ⟨h.src, h.srcInc, .alive⟩ ∧ MsgWire h.msg)
+    IdWire MsgWire where
+  toBaseE := Sent.baseE E τ
+  handleSelfUpdate := Sent.handleSelfUpdate E τ
+  emitS2d := fun m inc after tok hm => PresE.emit_of (fun s eff h => ⟨h.1, fun x hx => by
+    rcases List.mem_append.1 hx with hx | hx
+    · exact h.2 x hx
+    · simp only [List.mem_singleton] at hx
+      subst hx
+      exact hm⟩)
+  inputDown := fun u hu => MW.down0 τ hu.1.1
+  senderOk := fun _ _ _ hh _ _ => hh.1
   applyOk := fun _ _ _ hu _ _ _ => hu
+  replyOk := fun h hh => by
+    obtain ⟨⟨⟨hsrc, _⟩, _⟩, hmsg⟩ := hh
+    refine ⟨hsrc, ?_, ?_, ?_, ?_⟩
+    · intro n hn; rw [hn] at hmsg; exact hmsg
+    · intro t n hn; rw [hn] at hmsg; exact ⟨hmsg.1, hsrc, hmsg.2⟩
+    · intro o n hn; rw [hn] at hmsg; exact hmsg
+    · intro t n hn; rw [hn] at hmsg; exact ⟨hmsg.1, hsrc, hmsg.2⟩
   failedOk := fun s0 _ m hp hm => by
     apply hp.1.1.2.2.2.1 m
     unfold Probe.takeFailed at hm
@@ -216,25 +248,27 @@ theorem Sent.fullE : FullE E (Sent E) MWire MWire (fun h => IdWire h.src ∧ h.s
     · exact hm
     · simp at hm
 
-theorem Sent.reuseDownIdentity : PresE (Sent E) Foca.reuseDownIdentity := by
+theorem Sent.reuseDownIdentity : PresE (Sent E τ) Foca.reuseDownIdentity := by
   unfold Foca.reuseDownIdentity
   prese
-  exact Sent.reset E
+  exact Sent.reset E τ
 
 /-- **One public call with wire-range input**: the state stays ready, and every datagram the call emitted has the
     documented shape. -/
-theorem Sent.step (s : State) (op : Op) (orc : Oracle) (h : Ready E s) (hin : InputWire E op) :
+theorem Sent.step (s : State) (op : Op) (orc : Oracle) (h : Ready E τ s) (hin : InputWire E τ op) :
     match Foca.step E s op orc with
-    | .done s' eff _ _ => Ready E s' ∧ ∀ e ∈ eff, EffShape E e
+    | .done s' eff _ _ => Ready E τ s' ∧ ∀ e ∈ eff, EffShape E τ e
     | .stuck _ => True := by
-  have F := Sent.fullE E
+  have F := Sent.fullE E τ
   have hrun := (F.runOp op
-    (fun i p hi => Sent.changeIdentity E i p (hin.2.2.2 i p hi))
-    (fun _ => Sent.reuseDownIdentity E)
+    (fun i p hi => Sent.changeIdentity E τ i p (hin.2.2.2.1 i p hi))
+    (fun _ => Sent.reuseDownIdentity E τ)
     (fun m inc tok ht => hin.2.2.1 m inc tok ht)
+    (fun p tok ht => hin.2.2.2.2.1 p tok ht)
+    (fun d hd => hin.2.2.2.2.2 d hd)
     (fun us b hu => hin.1 us b hu)
     (fun data hd => hin.2.1 data hd)
-    (fun id _ => Sent.modS E (Pres.and (WireInv.removeDown E id) ((CustomNE.leaves E).removeDown id)))).run
+    (fun id _ => Sent.modS E τ (Pres.and (WireInv.removeDown E τ id) ((CustomNE.leaves E).removeDown id)))).run
       ⟨s, [], orc⟩ ⟨h, by intro e he; simp at he⟩
   unfold Foca.step
   cases hr : Foca.runOp E op ⟨s, [], orc⟩ with
@@ -242,15 +276,19 @@ theorem Sent.step (s : State) (op : Op) (orc : Oracle) (h : Ready E s) (hin : In
   | ok r c => rw [hr] at hrun; exact hrun
   | err e c => rw [hr] at hrun; exact hrun
 
-theorem Ready.reachable {s : State} (h : WireHistory E s) : Ready E s := by
+theorem Ready.mono {τ' : Id → Nat} (hle : ∀ id, τ id ≤ τ' id) {s : State} (h : Ready E τ s) : Ready E τ' s :=
+  ⟨WireInv.mono E τ hle h.1, h.2⟩
+
+end
+
+theorem Ready.reachable (E : Env) {s : State} {τ : Id → Nat} (h : WireHistory E s τ) : Ready E τ s := by
   induction h with
-  | init id pol cfg hw =>
-    refine ⟨WireInv.reachable E (WireHistory.init id pol cfg hw), ?_⟩
+  | init id pol cfg τ hw =>
+    refine ⟨WireInv.reachable E (WireHistory.init id pol cfg τ hw), ?_⟩
     intro e he; simp [State.init] at he
-  | step op orc eff r left _ hin hstep ih =>
-    have := Sent.step E _ op orc ih hin
+  | step op orc eff r left _ hle hin hstep ih =>
+    have := Sent.step E _ _ op orc (Ready.mono E _ hle ih) hin
     rw [hstep] at this
     exact this.1
 
-end
 end Foca
